@@ -225,6 +225,74 @@ pub fn replay_decode(suite: &str, kind: Kind, codec: Codec, bytes: &[u8], seed: 
     }
 }
 
+/// random / wrong-length / mutated / catalogue inputs into the stand-alone key decoders
+fn keyapi_job(ctx: &Ctx, s: &dyn SuiteOps) -> (u64, Vec<Found>, Vec<u64>) {
+    let h = harvest(s, ctx.seed, 0, false);
+    let l = s.lens();
+    let mut g = Gen::new(ctx.seed, &format!("gen/c12/keyapi/{}", s.name()));
+    let mut found = vec![];
+    let mut shapes = vec![];
+    let mut n = 0u64;
+    let Some(setup) = h.get(Kind::Setup) else { return (0, found, shapes) };
+    let sk = setup[l.nh..l.nh + l.nsk].to_vec();
+    let pk = s.setup_public_key(&Item::native(Kind::Setup, setup)).unwrap_or_default();
+    let cat = catalog::load(&ctx.verif_dir, s.ke());
+    for which in 0..4u8 {
+        let base = if which == 0 { pk.clone() } else { sk.clone() };
+        let mut inputs: Vec<(String, Vec<u8>)> = vec![("valid".into(), base.clone())];
+        for len in 0..=base.len() + 8 {
+            let mut b = base.clone();
+            b.resize(len, 0xA5);
+            inputs.push(("length".into(), b));
+            inputs.push(("random_length".into(), g.bytes(len)));
+        }
+        for len in [2 * base.len(), 2 * base.len() + 1, 255, 256, 1000] {
+            inputs.push(("long".into(), g.bytes(len)));
+        }
+        for _ in 0..ctx.pick(200, 4000) {
+            let mut b = base.clone();
+            let o = g.below(b.len());
+            b[o] ^= 1 << g.below(8);
+            inputs.push(("bitflip".into(), b));
+            inputs.push(("random".into(), g.bytes(base.len())));
+        }
+        let entries = if which == 0 { &cat.elems } else { &cat.scalars };
+        for e in entries {
+            inputs.push((format!("catalogue:{}", e.cl), hex::decode(&e.hex).unwrap()));
+        }
+        for (class, b) in inputs {
+            n += 1;
+            let r = s.key_api(which, &b);
+            shapes.push(fnv(format!("{}|keyapi{}|{}|{}", s.name(), which, class.split(':').next().unwrap_or(""), r.is_ok()).as_bytes()));
+            if let Err(f) = &r {
+                if f.is_panic() {
+                    let p = f.short();
+                    let loc = p.split(" @ ").last().unwrap_or("?").trim_end_matches("\")@Op").to_string();
+                    let sig = format!("panic:keyapi{}:{}", which, loc);
+                    if !found.iter().any(|x: &Found| x.signature == sig) {
+                        found.push(Found {
+                            clause: "panic".into(),
+                            detail: format!("{}: key-pair API call {} ({}) on a {}-byte input [{}]: {}", s.name(), which, ["PublicKey::deserialize", "PrivateKey::deserialize", "KeyPair::from_private_key_slice", "KeyPair<_, external key>::from_private_key_slice"][which as usize], b.len(), class, p),
+                            signature: sig,
+                            case: Case::Custom { mode: "keyapi".into(), params: json!({"suite": s.name(), "which": which, "bytes": hex::encode(&b)}) },
+                        });
+                    }
+                }
+            }
+        }
+    }
+    (n, found, shapes)
+}
+
+pub fn replay_keyapi(params: &serde_json::Value) -> Option<String> {
+    let s = crate::suite::suite_by_name(params["suite"].as_str()?)?;
+    let b = hex::decode(params["bytes"].as_str()?).ok()?;
+    match s.key_api(params["which"].as_u64()? as u8, &b) {
+        Err(f) if f.is_panic() => Some(f.short()),
+        _ => None,
+    }
+}
+
 // ---------------------------------------------------------------- (e) oversize parameters
 
 const LENS: [usize; 8] = [0, 1, 255, 256, 65535, 65536, 65537, 131072];
@@ -346,6 +414,21 @@ pub fn run(ctx: &Ctx) -> Report {
     rep.extra.insert("decoded_ok_then_exercised_in_protocol".into(), json!(exd));
     rep.extra.insert("decoded_ok".into(), json!(ok));
     rep.extra.insert("slowest_decode_us".into(), json!(max_us as u64));
+    // the stand-alone key-pair API (PublicKey / PrivateKey / KeyPair decoders, both key types)
+    let kjobs: Vec<usize> = (0..suites.len()).collect();
+    let kouts = par_map(kjobs.len(), ctx.threads, |i| keyapi_job(ctx, suites[kjobs[i]]));
+    let mut kevals = 0u64;
+    for (n, found, shapes) in kouts {
+        kevals += n;
+        for f in found {
+            rep.add_found(f);
+        }
+        for s in shapes {
+            rep.shapes.insert(s);
+        }
+    }
+    rep.evaluations += kevals;
+    rep.extra.insert("keypair_api_inputs".into(), json!(kevals));
     // (a) monitor 1 over the other generators
     let seed = ctx.seed;
     let n = ctx.pick(3, 40);
